@@ -1176,10 +1176,15 @@ class UGrid(DimensionConvention[UGridKind, UGridIndex]):
     @cached_property
     def bounds(self) -> Bounds:
         topology = self.topology
-        min_x = numpy.nanmin(topology.node_x)
-        max_x = numpy.nanmax(topology.node_x)
-        min_y = numpy.nanmin(topology.node_y)
-        max_y = numpy.nanmax(topology.node_y)
+        # Only the nodes that are part of a face count towards the bounds.
+        # A dataset can contain nodes that no face uses.
+        node_indexes = topology.face_node_array.compressed()
+        node_x = topology.node_x.values[node_indexes]
+        node_y = topology.node_y.values[node_indexes]
+        min_x = numpy.nanmin(node_x)
+        max_x = numpy.nanmax(node_x)
+        min_y = numpy.nanmin(node_y)
+        max_y = numpy.nanmax(node_y)
         return (min_x, min_y, max_x, max_y)
 
     def make_clip_mask(
